@@ -72,13 +72,13 @@ package stun
 //@   |   && m.Attributes[k].Length == be16(m.Raw, start(m.Raw, k) + 2))
 
 //@ func (*Message).Decode
-//@   safety C01
-//@   props C01 C08
+//@   safety C01 C12
+//@   props C01 C08 C12
 //@   requires m != nil
 //@   assigns m.Type, m.Length, m.TransactionID, m.Attributes, mem(m.Attributes)
 //@   ensures result == nil ==> DecodedViews(m)
 //@   ensures result == nil ==> len(m.Raw) >= 20 && be32(m.Raw, 4) == 0x2112A442
-//@   props C02
+//@   props C02 C12
 //@   ensures result == nil <==> accept(m.Raw, len(m.Raw))
 //@   ensures result == nil ==> DecodedContent(m)
 //@   loop 0
@@ -167,14 +167,14 @@ package stun
 //@   ensures result == nil ==> DecodedContent(b)
 
 //@ func (*Message).ReadFrom
-//@   safety C01
-//@   props C01
+//@   safety C01 C12
+//@   props C01 C12
 //@   requires m != nil && r != nil
 //@   assigns *m, mem(m.Raw), mem(m.Attributes)
 //@   allocates
-//@   ensures region(m.Raw) == old(region(m.Raw)) && off(m.Raw) == old(off(m.Raw)) && len(m.Raw) <= old(cap(m.Raw))
+//@   ensures region(m.Raw) == old(region(m.Raw)) && off(m.Raw) == old(off(m.Raw)) && len(m.Raw) <= old(cap(m.Raw)) && cap(m.Raw) == old(cap(m.Raw))
 //@   ensures result1 == nil ==> DecodedViews(m) && be32(m.Raw, 4) == 0x2112A442
-//@   props C02
+//@   props C02 C12
 //@   ensures result1 == nil ==> accept(m.Raw, len(m.Raw)) && DecodedContent(m)
 
 // ---- attribute lookup (C02: Get returns the first attribute of a type, Contains is membership) ----
@@ -884,8 +884,8 @@ package stun
 //@   | && gmap(ev_errt)[old(ghost(ev_n))] == errtag(err) && gmap(ev_errv)[old(ghost(ev_n))] == errval(err)
 
 //@ func (*Agent).Start
-//@   safety C13 C14
-//@   props C13 C14
+//@   safety C13 C14 C10
+//@   props C13 C14 C10
 //@   requires AgentInv(a)
 //@   assigns mem(a.transactions), gmap(held)[region(a)]
 //@   ensures AgentInv(a) && NoEvent() && a.closed == old(a.closed)
@@ -895,8 +895,8 @@ package stun
 //@   ensures !old(a.closed) && !old(haskey(a.transactions, id)) ==> forallkey(k, k != id ==> ((haskey(a.transactions, k) <==> old(haskey(a.transactions, k))) && (haskey(a.transactions, k) ==> a.transactions[k].deadline == old(a.transactions[k].deadline))))
 
 //@ func (*Agent).StopWithError
-//@   safety C13 C14
-//@   props C13 C14
+//@   safety C13 C14 C10
+//@   props C13 C14 C10
 //@   requires AgentInv(a) && a.closed || AgentInv(a) && a.handler != nil
 //@   assigns mem(a.transactions), gmap(held)[region(a)], ghost(ev_n), gmapa(ev_tid)[ghost(ev_n)], gmap(ev_errt)[ghost(ev_n)], gmap(ev_errv)[ghost(ev_n)], gmap(ev_msg)[ghost(ev_n)], gmap(ev_h)[ghost(ev_n)]
 //@   ensures AgentInv(a) && a.closed == old(a.closed)
@@ -906,8 +906,8 @@ package stun
 //@   ensures !old(a.closed) ==> forallkey(k, k != id ==> ((haskey(a.transactions, k) <==> old(haskey(a.transactions, k))) && (haskey(a.transactions, k) ==> a.transactions[k].deadline == old(a.transactions[k].deadline))))
 
 //@ func (*Agent).Stop
-//@   safety C13 C14
-//@   props C13 C14
+//@   safety C13 C14 C10
+//@   props C13 C14 C10
 //@   requires AgentInv(a) && a.closed || AgentInv(a) && a.handler != nil
 //@   assigns mem(a.transactions), gmap(held)[region(a)], ghost(ev_n), gmapa(ev_tid)[ghost(ev_n)], gmap(ev_errt)[ghost(ev_n)], gmap(ev_errv)[ghost(ev_n)], gmap(ev_msg)[ghost(ev_n)], gmap(ev_h)[ghost(ev_n)]
 //@   ensures AgentInv(a) && a.closed == old(a.closed)
@@ -916,8 +916,8 @@ package stun
 //@   ensures !old(a.closed) && old(haskey(a.transactions, id)) ==> result == nil && OneEvent(id, ErrTransactionStopped) && !haskey(a.transactions, id)
 
 //@ func (*Agent).Process
-//@   safety C13 C14 C12
-//@   props C13 C14 C12
+//@   safety C13 C14 C12 C10
+//@   props C13 C14 C12 C10
 //@   requires m != nil && (AgentInv(a) && a.closed || AgentInv(a) && a.handler != nil)
 //@   assigns mem(a.transactions), gmap(held)[region(a)], ghost(ev_n), gmapa(ev_tid)[ghost(ev_n)], gmap(ev_errt)[ghost(ev_n)], gmap(ev_errv)[ghost(ev_n)], gmap(ev_msg)[ghost(ev_n)], gmap(ev_h)[ghost(ev_n)]
 //@   ensures AgentInv(a) && a.closed == old(a.closed)
@@ -956,8 +956,8 @@ package stun
 //@ define TimeoutEvent(e) = gmap(ev_errt)[e] == errtag(ErrTransactionTimeOut) && gmap(ev_errv)[e] == errval(ErrTransactionTimeOut)
 
 //@ func (*Agent).Collect
-//@   safety C13 C14
-//@   props C13 C14
+//@   safety C13 C14 C10
+//@   props C13 C14 C10
 //@   requires AgentInv(a) && a.closed || AgentInv(a) && a.handler != nil
 //@   assigns mem(a.transactions), gmap(held)[region(a)], ghost(ev_n), gmapa(ev_tid), gmap(ev_errt), gmap(ev_errv), gmap(ev_msg), gmap(ev_h)
 //@   allocates
@@ -1004,8 +1004,8 @@ package stun
 //@ define ClosedEvent(n) = gmap(ev_errt)[n] == errtag(ErrAgentClosed) && gmap(ev_errv)[n] == errval(ErrAgentClosed)
 
 //@ func (*Agent).Close
-//@   safety C13 C14
-//@   props C13 C14
+//@   safety C13 C14 C10
+//@   props C13 C14 C10
 //@   callsunderlock
 //@   requires AgentInv(a) && a.closed || AgentInv(a) && a.handler != nil
 //@   assigns a.transactions, a.closed, a.handler, gmap(held)[region(a)], ghost(ev_n), gmapa(ev_tid), gmap(ev_errt), gmap(ev_errv), gmap(ev_msg), gmap(ev_h)
